@@ -39,7 +39,7 @@ def build(name):
             arrival_distributions=[D.Exponential(2.0), None, None],
             service_distributions=[D.Exponential(3.0), D.Exponential(3.0), D.Exponential(3.0)],
             number_of_servers=[1, 1, 1],
-            routing=R.NetworkRouting(routers=[R.Cycle(cycle=[2, 3, -1, 2]), R.Leave(), R.Probabilistic(destinations=[1], probs=[0.3])]))
+            routing=R.NetworkRouting(routers=[R.Cycle(cycle=[2, 3, -1, 2]), R.Direct(to=3), R.Probabilistic(destinations=[1], probs=[0.3])]))
     if name == "process":
         return ciw.create_network(
             arrival_distributions={"A": [D.Exponential(1.5), None, None], "B": [D.Exponential(1.0), None, None]},
